@@ -277,6 +277,13 @@ func Build(name string) *Graph {
 		r3 := g.Artifact("application/vnd.example.sig", "sig-of-sbom", &r2, nil)
 		g.Top = img.Digest
 		g.Referrers = []string{r1.Digest, r2.Digest, r3.Digest}
+	case "G23": // image + three leaf referrers (symmetric siblings: their registrations race)
+		img := g.SimpleImage(false, "amd64", "subj3-layer")
+		r1 := g.Artifact("application/vnd.example.sig", "leaf-1", &img, map[string]string{"n": "1"})
+		r2 := g.Artifact("application/vnd.example.sbom", "leaf-2", &img, map[string]string{"n": "2"})
+		r3 := g.Artifact("application/vnd.example.sig", "leaf-3", &img, map[string]string{"n": "3"})
+		g.Top = img.Digest
+		g.Referrers = []string{r1.Digest, r2.Digest, r3.Digest}
 	case "G14": // image + digest tags
 		img := g.SimpleImage(false, "amd64", "dt-layer")
 		s1 := g.Artifact("application/vnd.example.sig", "dt-sig", nil, nil)
